@@ -55,6 +55,8 @@ type Case struct {
 	// Repeat re-runs the same case (replay / corpus): schedules differ from run to run
 	Repeat int    `json:"repeat,omitempty"`
 	Kind   string `json:"kind,omitempty"`
+	// request/response rendezvous (mode rv): see rendezvous.go
+	Rv *RvCase `json:"rv,omitempty"`
 }
 
 const (
@@ -241,6 +243,12 @@ func runForced(cp *Comp, c Case) runResult {
 }
 
 func runCase(cp *Comp, c Case, kind string, tr *hx.Trace) {
+	if c.Mode == "rv" && c.Rv != nil {
+		runRendezvous(c, kind, tr)
+
+		return
+	}
+
 	reps := c.Repeat
 	if reps < 1 {
 		reps = 1
@@ -729,6 +737,13 @@ func main() {
 				c.Procs = 4
 			}
 
+			if c.Mode == "rv" {
+				// a process of its own: handler goroutines left behind by one case must not be counted in the next
+				jobs = append(jobs, job{Kind: kind, Cases: []Case{c}})
+
+				continue
+			}
+
 			byProcs[c.Procs] = append(byProcs[c.Procs], c)
 		}
 
@@ -776,6 +791,10 @@ func main() {
 				c.Repeat = 3
 			}
 
+			if c.Mode == "rv" {
+				c.Repeat = 1
+			}
+
 			split("replay", []Case{c}, 1)
 		}
 	} else {
@@ -785,6 +804,8 @@ func main() {
 		}
 
 		split("forced", forcedCases(rng.Fork(1), a.Tier), 40)
+		// one process per case: handler goroutines left behind by one case must not be counted in the next
+		split("rendezvous", rvCases(a.Tier), 1)
 		split("stress", stressCases(rng.Fork(2), a.Tier), 60)
 	}
 
